@@ -1670,7 +1670,7 @@ BUDGETS = {
                 technique="deterministic simulation: seeded derive/execute/fault histories over a stream forest, snapshot invariant after every step"),
     "C12": dict(quick_runs=12000, thorough_budget=900,
                 technique="deterministic simulation: virtual-time asyncio loop with seeded schedules and executor faults, routing model over the recorded history, bounded liveness"),
-    "C16": dict(quick_runs=8000, thorough_budget=900,
+    "C16": dict(quick_runs=6000, thorough_budget=900,
                 technique="deterministic simulation: seeded QMetaData/derive/execute histories against a dict-per-stream reference model and a twin chain without QMetaData"),
     "C04": dict(quick_runs=12000, thorough_budget=900,
                 technique="deterministic simulation: seeded rebinding/deletion/source-touch histories of client programs on a simulated source disk, Python's own lambda as reference"),
